@@ -207,8 +207,16 @@ fn pool_case(case: &Value) -> Value {
         let idxs: Vec<usize> = s.as_array().unwrap().iter().map(|x| x.as_u64().unwrap() as usize).collect();
         let items: Vec<String> = idxs.iter().map(|i| format!("pool[{i}]")).collect();
         let src = format!("x = [{}]\nx.sort()\nx\n", items.join(", "));
-        let o = svm.run(&src);
-        sorts.push(json!({"ok": o.ok, "result": o.result}));
+        // the standard library's sort panics when it notices that the comparison is not a total order
+        let r = std::panic::catch_unwind(std::panic::AssertUnwindSafe(|| svm.run(&src)));
+        match r {
+            Ok(o) => sorts.push(json!({"ok": o.ok, "result": o.result})),
+            Err(_) => {
+                sorts.push(json!({"panic": true, "at": last_panic_location()}));
+                svm = ScriptVm::new();
+                svm.vm.prelude().insert("pool", KValue::Tuple(vals.clone().into()));
+            }
+        }
     }
     out.insert("sorts".into(), Value::Array(sorts));
     // map.sort() on keys (ValueKey::partial_cmp through IndexMap::sort_by)
